@@ -44,7 +44,7 @@ REQUIRED = ["C10:fresh-identical", "C10:after-history", "C10:interleaved", "C10:
             "C10:same-as-alone-in-fresh-interpreter", "C10:backtest-same-as-step-loop", "C10:copy-continues-identically", "C10:returned-record-unchanged-by-later-episodes"]
 REQUIRED_CATS = ["fit-transformers-from-a-shared-config", "scenario:used-transmitter-other-latency", "kind:xy", "alone-kind:xy", "alone-kind:spot", "alone-kind:chain", "kind:chain", "kind:spot", "kind:discrete", "history:abandon", "history:full", "history:otherfold", "history:error", "history:refused-reset",
                  "history:insolvency", "history:windowed", "scenario:K3-construction", "kind:default-state"]
-TECHNIQUE = "runtime monitoring: twin-run comparison of canonical call digests; exhaustive call-level interleavings of two short episodes"
+TECHNIQUE = "runtime monitoring: twin-run comparison of canonical call digests (same process, deep copies, backtest entry point, and the same environment alone in a fresh interpreter); exhaustive call-level interleavings of two short episodes"
 LEVEL_TEXT = ("Exploration plus an exhaustive enumeration of the call-level interleavings of two short episodes for a few environment "
               "pairs. Bit-identical digests are required between a run alone and the same run after other episodes / interleaved with "
               "another environment.")
